@@ -29,5 +29,5 @@ def run(tier):
                             "one value_selection call in the execution. MODEL (MGM): Mgm.tla checked by TLC over every schedule and draw "
                             "(invariant ValueInDomain), every explored transition replayed on the real computations")
     from ..mgmmodel import model_part
-    model_part(v, tier, ["ValueInDomain"], CLAUSES, [], seed_off=10, shapes=["pair3", "path3d3", "unarypair", "isolated"] if quick else None)
+    model_part(v, tier, ["ValueInDomain"], CLAUSES, [], seed_off=10, shapes=["pair3", "path3d3", "unarypair", "isolated"] if quick else None, light=quick)
     return v.finish()
